@@ -1,6 +1,6 @@
 (** C15 -- script arguments, functions, source, exit statuses. Statements only. *)
 From Cicada Require Import Base.Chars Base.Peg Gen.LocustGrammar Model.Script Model.ScriptAst Model.Args Model.ShellScript
-  Proofs.ArgsProofs Proofs.SetEProofs Proofs.ScriptProofs Proofs.ShellProofs Proofs.ShellCallsProofs Proofs.ShellFlagProofs.
+  Proofs.ArgsProofs Proofs.SetEProofs Proofs.ScriptProofs Proofs.ShellProofs Proofs.ShellCallsProofs Proofs.ShellFlagProofs Proofs.LocustParse Proofs.ShellTextProofs.
 From Coq Require Import ZArith String Ascii.
 
 Definition S2 (s : string) : str := map N_of_ascii (list_ascii_of_string s).
@@ -458,8 +458,8 @@ Ltac prove_flat_parsed :=
         exists p, r, k;
         let m := eval vm_compute in (map (annotate t) k) in
         match m with
-        | [TNode ?rule ?txt _] =>
-            exists rule, txt, [TNode 0 [] []]; split; [vm_compute; reflexivity | split; vm_compute; reflexivity]
+        | [TNode ?rule ?txt ?kk] =>
+            exists rule, txt, kk; split; [vm_compute; reflexivity | split; vm_compute; reflexivity]
         end
     end
   end.
@@ -599,6 +599,59 @@ Proof.
   reflexivity.
 Qed.
 
+(** 3h. FROM THE TEXT (round 9b; Proofs/ShellTextProofs.v). [flat_parsed] is discharged for every text of
+    C14's flat fragment (frag_flat: command lines, no indentation, see C14_parse_flat): the text is parsed --
+    with the fuel parse_from computes -- to exactly its lines, or parse_from runs out of fuel.
+    C15_sete_calls_text: the flag-state theorem with the script TEXT [render_block b] as hypothesis instead of
+    a parse (function bodies still enter through tab_ok, whose flat_parsed entries are discharged the same
+    way for unindented bodies, by computation otherwise). *)
+Theorem C15_flat_text_parsed : forall b, frag_flat b = true ->
+  parse_from l_grammar L_EXP (render_block b) = PFuel \/
+  exists ls, flat_lines b = Some ls /\ flat_parsed (render_block b) ls.
+Proof. exact flat_text_parsed. Qed.
+
+Theorem C15_sete_calls_text : forall ext file_text n ft rt, tab_ok ft rt ->
+  forall fuel b ls w e' tr st, frag_flat b = true ->
+  parse_from l_grammar L_EXP (render_block b) <> PFuel ->
+  flat_lines b = Some ls -> forallb ok_line ls = true -> s_funcs w = ft ->
+  refl ext rt fuel ls (s_eoe w) 0%Z = Some (e', tr, st) ->
+  exists sts,
+    run_lines shs (exec_line ext file_text n fuel) no_words no_setvar s_eoe n (render_block b) w =
+      Some (Done (mk_shs e' ft (s_log w ++ tr)) sts false false)
+    /\ script_status sts = st.
+Proof.
+  intros ext file_text n ft rt Htab fuel b ls w e' tr st Hfr Hnf Hfl Hok Hf Hr.
+  destruct (flat_text_parsed b Hfr) as [F|[ls' [E P]]]; [contradiction|].
+  rewrite E in Hfl. injection Hfl as ->.
+  exact (flag_state_lines ext file_text n ft rt Htab fuel (render_block b) ls w e' tr st P Hok Hf Hr).
+Qed.
+
+Definition tx_body : block := BCons (SCmd nil (S2 "in1")) (BCons (SCmd nil (S2 "fail7")) (BCons (SCmd nil (S2 "last")) BNil)).
+Definition tx_main : block :=
+  BCons (SCmd nil (S2 "set -e")) (BCons (SCmd nil (S2 "one")) (BCons (SCmd nil (S2 "f")) (BCons (SCmd nil (S2 "notreached")) BNil))).
+Example C15_sete_calls_text_nonvacuous :
+  exists sts,
+    run_lines shs (exec_line fs_ext (fun _ => None) 8 3) no_words no_setvar s_eoe 8 (render_block tx_main)
+      (mk_shs false [(S2 "f", render_block tx_body)] []) =
+      Some (Done (mk_shs true [(S2 "f", render_block tx_body)] [S2 "one"; S2 "in1"; S2 "fail7"]) sts false false)
+    /\ script_status sts = 7%Z.
+Proof.
+  assert (Hb : flat_parsed (render_block tx_body) [S2 "in1"; S2 "fail7"; S2 "last"]).
+  { destruct (C15_flat_text_parsed tx_body eq_refl) as [F|[ls [E P]]]; [vm_compute in F; discriminate F|].
+    vm_compute in E. injection E as <-. exact P. }
+  assert (Ht : tab_ok [(S2 "f", render_block tx_body)] [(S2 "f", [S2 "in1"; S2 "fail7"; S2 "last"])]).
+  { apply tab_cons; [exact Hb | vm_compute; reflexivity | apply tab_nil]. }
+  apply (C15_sete_calls_text fs_ext (fun _ => None) 8 _ _ Ht 3 tx_main
+           [S2 "set -e"; S2 "one"; S2 "f"; S2 "notreached"] (mk_shs false [(S2 "f", render_block tx_body)] [])
+           true [S2 "one"; S2 "in1"; S2 "fail7"] 7%Z).
+  - vm_compute. reflexivity.
+  - vm_compute. discriminate.
+  - vm_compute. reflexivity.
+  - vm_compute. reflexivity.
+  - reflexivity.
+  - vm_compute. reflexivity.
+Qed.
+
 (** The property, in full, and its refutation on the faithful model (what is left: a token
     holding a newline is not expanded -- first clause, stated for ALL tokens). *)
 Definition C15_full : Prop :=
@@ -675,6 +728,9 @@ Print Assumptions C15_sete_rest_of_body.
 Print Assumptions C15_sete_calls_trace.
 Print Assumptions C15_sete_calls_script.
 Print Assumptions C15_first_failure.
+Print Assumptions C15_flat_text_parsed.
+Print Assumptions C15_sete_calls_text.
+Print Assumptions C15_sete_calls_text_nonvacuous.
 Print Assumptions C15_sete_calls_flag_state.
 Print Assumptions C15_sete_calls_flag_state_script.
 Print Assumptions C15_flag_never_off.
